@@ -21,7 +21,7 @@ class TokenScanner:
 
     def __init__(self, path_or_str: str) -> None:
         if os.path.exists(path_or_str):
-            self.io = open(path_or_str, encoding="utf8")
+            self.io = open(path_or_str, encoding="utf8", newline="\n")
         else:
             self.io = io.StringIO(path_or_str)
         self.line_number = 0
